@@ -315,6 +315,15 @@ func runHandoffDaemon(ss []hsess, delaySshd, delayAudit int, noise int, fifoOut 
 		}(outR)
 		defer outR.Close()
 	}
+	if !fifoOut {
+		// the output file is not empty when the daemon starts: three events of an earlier run
+		var pb strings.Builder
+		for i := 0; i < 3; i++ {
+			fmt.Fprintf(&pb, "{\"earlier-run\":%d,\"pad\":\"%s\"}\n", i, strings.Repeat("p", 150+40*i))
+		}
+		daemonPrior = []byte(pb.String())
+		defer func() { daemonPrior = nil }()
+	}
 	d, err := startDaemon(true, true, out)
 	if err != nil || d.sshdW == nil || d.auditW == nil {
 		if d != nil {
@@ -324,6 +333,9 @@ func runHandoffDaemon(ss []hsess, delaySshd, delayAudit int, noise int, fifoOut 
 	}
 	defer d.stop()
 	want := noise
+	if !fifoOut {
+		want += 3
+	}
 	for _, s := range ss {
 		want += 1 + s.k + 2
 	}
@@ -441,9 +453,21 @@ func runHandoffDaemon(ss []hsess, delaySshd, delayAudit int, noise int, fifoOut 
 		os.WriteFile(evPath, collected, 0o600)
 		cmu.Unlock()
 	}
+	overwritten := 0
+	if !fifoOut {
+		// what was there before must still be there, untouched, and everything of this run after it
+		data, _ := os.ReadFile(evPath)
+		if bytes.HasPrefix(data, daemonPrior) {
+			data = data[len(daemonPrior):]
+		} else {
+			overwritten = 1
+		}
+		evPath = filepath.Join(d.dir, "this-run.log")
+		os.WriteFile(evPath, data, 0o600)
+	}
 	t, items := readEvents(evPath)
 	wantHost, wantMID = nodeName, machineID
-	return fmt.Sprintf("T:%d|%s", t, strings.Join(items, ";"))
+	return fmt.Sprintf("T:%d|%s", t+overwritten, strings.Join(items, ";"))
 }
 
 func init() {
